@@ -500,7 +500,8 @@ func (e *c12Env) submitCase(r *Run, c c12Order, rng *rand.Rand, replay interface
 		var id [8]byte
 		rng.Read(id[:])
 		ticket, _ = e.honest(c14Base{ID: hex.EncodeToString(id[:]), Version: uint8(rng.Intn(2)), State: 2,
-			Capacity: c.Amt, Push: 0, Lease: c.Lease, SignKey: k, Nonce: c.Nonce})
+			Capacity: c.Amt, Push: c.SelfChanBal, Lease: c.Lease, Unannounced: c.Unannounced,
+			ZeroConf: c.ZeroConf, SignKey: k, Nonce: c.Nonce})
 		ticket.Order = nil
 		ticket.State = sidecar.StateRegistered
 	}
